@@ -36,6 +36,11 @@ def run(ctx):
     r4(ctx)
     # batch trackers: admission is judged against the track the detection is then attached to - the previous batch is
     # finished (merged) before the distances of the next one are computed (monitor protocol, shared with C06 / C05)
+    ctx.rule('R20.9', 'the epoch gap the table is consulted with counts every predict call of the scene, empty frames included')
+    ctx.floor('R20.9', T.rule_predict_epoch(ctx, 'R20.9'), 4)
+    import misclib
+    ctx.rule('R20.8', 'the regulariser of dist_in_2r is the public constant EPS = 1e-5')
+    ctx.floor('R20.8', misclib.rule_library_epsilon(ctx, 'R20.8'), 1)
     from props import C06
     ctx.rule('R20.7', 'batch trackers judge admission on the stored state the merge lands on: predict waits for the previous '
                       'batch before advancing epochs and querying distances')
